@@ -856,8 +856,9 @@ class Interp:
             if k.arg is None:
                 kw = v.tag("kw")
                 if kw is not None:
+                    cdeps = v.flat().ctrl
                     for kk, vv in kw.items():
-                        kws[kk] = vv
+                        kws[kk] = vv.with_ctrl(cdeps) if cdeps else vv      # what decided the CONTENT of the dict decides each entry
                     # a **dict(...) built from **opt_kwargs keeps the rest opaque
                     if v.tag("kw_rest") is not None:
                         kws["**"] = v.tag("kw_rest")
